@@ -211,6 +211,7 @@ func confirm(sc *Scenario, v *Violation, first *vsched.Result) {
 			return
 		}
 		if i == 0 {
+			v.Message = r.Failure // the verbose run resolves lock sites
 			v.Trace = r.Trace
 			if len(v.Trace) > 400 {
 				v.Trace = append(v.Trace[:200], v.Trace[len(v.Trace)-200:]...)
